@@ -472,7 +472,7 @@ void lbuf_saved(struct lbuf *lb, int clear)
 		lb->useq_last = lb->useq;
 	}
 	lb->useq_zero = lbuf_seq(lb);
-	lbuf_modified(xb);
+	lbuf_modified(lb);
 #ifdef NEATVI_VERIF
 	if (verif_on()) {
 		struct sbuf *sb = verif_rec("saved");
